@@ -20,7 +20,7 @@ import (
 
 type loadCase struct {
 	Kind     string `json:"kind"` // "load"
-	Stream   string `json:"stream"` // main | sg
+	Stream   string `json:"stream"` // main | sg | vals (the value catalogue, rendezvous at the gates)
 	Seed     uint64 `json:"seed"`
 	InFlight int    `json:"inflight"`
 	Rounds   int    `json:"rounds"`
@@ -155,14 +155,37 @@ type loadReq struct {
 	w    wire
 	want resp
 	sg   bool
+	own  string // vals stream: the body the request's own data prescribe ("" = no such oracle)
 }
 
 func loadRequests(r *vh.Rand, stream string, n int) []loadReq {
 	var out []loadReq
+	// vals stream: a few kinds per load case, so that several in-flight requests share each route
+	var valSet []valKind
+	if stream == "vals" {
+		var ks []valKind
+		for _, k := range valKinds() {
+			if k.Known == "" && !k.NoLoad {
+				ks = append(ks, k)
+			}
+		}
+		for m := r.Range(1, 4); len(valSet) < m; {
+			valSet = append(valSet, vh.Pick(r, ks))
+		}
+	}
 	for i := 0; i < n; i++ {
 		x := fmt.Sprintf("%d", 1000+i*7+r.Intn(5))
 		tag := fmt.Sprintf("t%d", i)
 		var w wire
+		if stream == "vals" {
+			k := vh.Pick(r, valSet)
+			q := loadReq{w: valWire(valReq{k.Name, x}, -1)}
+			if k.Want != nil {
+				q.own = k.Want(x)
+			}
+			out = append(out, q)
+			continue
+		}
 		if stream == "sg" {
 			rt := vh.Pick(r, []string{"/sgget", "/sgcookie"})
 			w = wire{Method: "GET", URL: rt + "?x=" + x, Headers: [][2]string{{"X-Tag", tag}}, Cookies: [][2]string{{"c", "c" + x}}}
@@ -183,6 +206,9 @@ func loadScript(stream string) string {
 	h := mainHandlers
 	if stream == "sg" {
 		h = sgHandlers
+	}
+	if stream == "vals" {
+		return valScript(nil)
 	}
 	return "<?php\nuse Net\\Http\\Server;\n$server = new Server('127.0.0.1', 0);\n" + h + "\nverif_expose($server);\n"
 }
@@ -206,12 +232,23 @@ func loadChild(args []string) int {
 	}
 	r := vh.NewRand(lc.Seed)
 	reqs := loadRequests(r, lc.Stream, lc.InFlight)
+	if lc.Stream == "vals" {
+		srv.gate.bar = newBarrier()
+	}
 	// solo responses first: one request at a time
 	for i := range reqs {
 		reqs[i].want = srv.serve(reqs[i].w)
 		res.Routes = append(res.Routes, reqs[i].w.URL)
 		if reqs[i].want.Panic != "" {
 			res.Panics = append(res.Panics, "solo "+reqs[i].w.URL+": "+reqs[i].want.Panic)
+			continue
+		}
+		if lc.Stream == "vals" {
+			if reqs[i].own != "" && (reqs[i].want.Body != reqs[i].own || reqs[i].want.Code != 200) {
+				res.NDiff++
+				res.NOwn++
+				res.Diffs = append(res.Diffs, loadDiff{reqs[i].w.URL, reqs[i].want.String(), "200 " + reqs[i].own + " (served alone, after other requests)", "own"})
+			}
 			continue
 		}
 		// the solo response itself must carry the request's own parameter (status line apart)
@@ -227,12 +264,18 @@ func loadChild(args []string) int {
 	for round := 0; round < lc.Rounds; round++ {
 		var wg sync.WaitGroup
 		start := make(chan struct{})
+		if srv.gate.bar != nil {
+			srv.gate.bar.begin(len(reqs))
+		}
 		for i := range reqs {
 			wg.Add(1)
 			go func(q loadReq) {
 				defer wg.Done()
 				<-start
 				got := srv.serve(q.w)
+				if srv.gate.bar != nil {
+					srv.gate.bar.leave()
+				}
 				mu.Lock()
 				defer mu.Unlock()
 				res.Requests++
@@ -370,6 +413,13 @@ func loadStreams(c *vh.Ctx) {
 		for _, p := range []int{1, 2, 4} {
 			runLoad(c, loadCase{Stream: "main", Seed: c.Rand.U64() % 1000000, InFlight: 16, Rounds: 100, Procs: p})
 		}
+	}
+	// the value catalogue under real parallelism: all in-flight requests create their values,
+	// meet at the gate, then use them while racing each other
+	nv := c.N(10, 80)
+	for i := 0; i < nv; i++ {
+		n := []int{2, 3, 8, 16, 32, 64}[i%6]
+		runLoad(c, loadCase{Stream: "vals", Seed: c.Rand.U64() % 1000000, InFlight: n, Rounds: c.N(4, 20)})
 	}
 	for _, n := range []int{8, 32} {
 		runLoad(c, loadCase{Stream: "sg", Seed: c.Rand.U64() % 1000000, InFlight: n, Rounds: c.N(20, 200)})
